@@ -397,12 +397,30 @@ impl Property for Algebra {
                 o.fail(format!("law:{what}"), format!("{what}: got {got:?} (residues {:?}) want residues {want:?}; a={a:?} b={b:?} c={cc:?}", residues(&got)));
                 return o;
             }
-            // results of arithmetic on canonical inputs must be canonical so that equal sets
-            // compare equal
-            if !noncanon && !canonical(&got) {
-                o.fail(format!("non-canonical-result:{what}"), format!("{what} on canonical inputs produced a non-canonical column: {got:?}"));
+            // The documented algorithm of add_state is `(A[i] + B[i]) % P[i]` for every input, so
+            // every result of + and - is canonical (column < prime) whatever the operands were;
+            // otherwise equal multisets stop comparing equal and get different hex digests.
+            if !canonical(&got) {
+                o.fail(format!("non-canonical-result:{what}"), format!("{what} produced a column >= its prime although add_state is documented as (A[i] + B[i]) % P[i]: {got:?}; a={a:?} b={b:?} c={cc:?}"));
                 return o;
             }
+        }
+        // the two public state functions against their documentation, exactly
+        let sum = setsum::add_state(c.a, c.b);
+        for i in 0..8 {
+            let want = ((c.a[i] as u64 + c.b[i] as u64) % PRIMES[i]) as u32;
+            if sum[i] != want {
+                o.fail("add_state:documented-formula", format!("add_state column {i}: ({} + {}) % {} = {want}, got {}", c.a[i], c.b[i], PRIMES[i], sum[i]));
+                return o;
+            }
+        }
+        if setsum::add_state(c.a, setsum::invert_state(c.a)) != [0u32; 8] {
+            o.fail("invert_state:not-an-inverse", format!("add_state(x, invert_state(x)) = {:?} for x = {:?}; documented to come out zero", setsum::add_state(c.a, setsum::invert_state(c.a)), c.a));
+            return o;
+        }
+        if a - a != Setsum::default() {
+            o.fail("law:a-a", format!("a - a = {:?} is not the empty setsum; a = {a:?}", a - a));
+            return o;
         }
         if !noncanon {
             if (a + b) - b != a || (a - b) + b != a || a + b != b + a || (a + b) + cc != a + (b + cc) {
@@ -629,7 +647,7 @@ fn main() {
         "proptest-generated multisets of byte strings (empty, repeated, long, vectored splits) and triples of setsum values whose columns are drawn from {0,1,p-1,p,p+1,2^32-1,random}; each case checks the algebraic laws, byte-exact digest round trips, agreement with a u128 reference and (in batches) with a Python hashlib reference. Non-trivial: >= 2 items, or any algebra triple; distinct by structural hash of the case.",
     )
     .assume("SHA3-256 of the sha3 crate and of Python's hashlib are correct")
-    .assume("for digests with a column >= its prime (reachable only through from_digest) results are compared as residues modulo the prime; digest bytes must still round-trip exactly")
+    .assume("for digests with a column >= its prime (reachable only through from_digest) operands are read as residues modulo the prime; every result of + and - must be canonical (add_state is documented as (A[i] + B[i]) % P[i]), a - a must be the empty setsum, and digest bytes must round-trip exactly")
     .pbt(Multisets)
     .pbt(Algebra { canon: true })
     .pbt(Algebra { canon: false })
